@@ -131,7 +131,8 @@ Definition mon_c08 (cs : list N) : list N :=
 Record g12 := mkG12 { g_open : list N;    (* outbound QoS>0 exchanges of this connection *)
                       g_late : list N;    (* PUBRELs first sent on a later connection than their PUBREC (known finding F-12b) *)
                       g_in : list N;
-                      g_unc : list N }.   (* exchanges that completed on this connection without ever being counted on it (F-12c) *)    (* inbound QoS>0 PUBLISH not yet answered finally by this side *)  
+                      g_unc : list N;     (* exchanges that completed on this connection without ever being counted on it (F-12c) *)
+                      g_une : list N }.   (* stored exchanges the application erased before this connection retransmitted (and counted) them (F-12d) *)    (* inbound QoS>0 PUBLISH not yet answered finally by this side *)  
 
 (* a successful CONNACK establishes the connection: what is outstanding afterwards is exactly what
    is retransmitted (session present) or nothing (new session) *)
@@ -188,6 +189,10 @@ Definition judge_c12 (g : cfg) (gh : g12) (o : obs) : list N * g12 :=
      reconnect without having been retransmitted (it was accepted before the session became persistent) *)
   let unc1 := if starts || is_resend o then [] else g_unc gh in
   let unc2 := fold_left (fun l id => if memb id open1 || memb id late2 then l else add_once id l) done unc1 in
+  (* a stored PUBLISH erased by the application before this connection has retransmitted it (between the CONNECT
+     and the CONNACK of a resumed session): it was never counted on this connection *)
+  let une1 := if starts || is_resend o then [] else g_une gh in
+  let une2 := fold_left (fun l id => if memb id open1 then l else add_once id l) erased une1 in
   let v :=
     match c_send_max post with
     | Some m =>
@@ -195,6 +200,8 @@ Definition judge_c12 (g : cfg) (gh : g12) (o : obs) : list N * g12 :=
       else if negb (c_send_count post =? n) then
         (if late_done || negb (match late2 with [] => true | _ => false end) then [90; c_send_count post; n]
          else if negb (match unc2 with [] => true | _ => false end) && (c_send_count post <? n) then [92; c_send_count post; n]
+         else if negb (match une2 with [] => true | _ => false end) && (c_send_count post <? n)
+                 && (n <=? c_send_count post + N.of_nat (length une2)) then [94; c_send_count post; n]
          else [1; c_send_count post; n])
       else if negb (opt_eqb (vacancy post) (Some (m - n))) then [2]
       else
@@ -256,10 +263,10 @@ Definition judge_c12 (g : cfg) (gh : g12) (o : obs) : list N * g12 :=
         then [] else [8; N.of_nat (length in2); N.of_nat (length (c_publish_recv post))]
       else []
     end in
-  (v3, mkG12 open3 late2 in2 unc2).
+  (v3, mkG12 open3 late2 in2 unc2 une2).
 
 Definition mon_c12 (cs : list N) : list N :=
   let t := dec_trace cs in
   if negb (tr_ok t) then [0; V_BADCASE]
   else if negb (tr_contract t) then []
-  else run_mon judge_c12 (tr_cfg t) (mkG12 [] [] [] []) 0 (tr_obs t).
+  else run_mon judge_c12 (tr_cfg t) (mkG12 [] [] [] [] []) 0 (tr_obs t).
